@@ -44,7 +44,7 @@ class Transfer:
 
 def setup(exe, seed, cfg):
     w = world.World(exe, seed=seed)
-    sim = world.Sim(w, latency=3)
+    sim = world.Sim(w, latency=cfg.get("latency", 3))
     cm = 1 | (2 if cfg["client_single"] else 0)
     sm = 1 | (2 if cfg["server_single"] else 0)
     ckw = {"block_mode": cm}
@@ -700,6 +700,17 @@ def work(job):
                         return [(3, b), (7, b)]
                     return None
                 faultfree, dup = not any(assign), 2 in assign
+            elif kind == "slow":
+                # nothing lost, nothing duplicated, only a slow path: 0.7 s each way (a round
+                # trip stays below ACK_TIMEOUT) and enough blocks for the transfer to take
+                # several minutes
+                r = common.rng("c09-slow-%r" % (it,))
+                cfg = make_cfg(r, kind_hint=it[0], length=r.choice([3300, 5000, 9000]))
+                cfg["transfers"] = cfg["transfers"][:1]
+                cfg["transfers"][0].typ = it[1]
+                cfg.update(client_maxblk=32, server_maxblk=32, client_mtu=0, server_mtu=0,
+                           latency=700)
+                fault, faultfree, dup = None, True, False
             elif kind == "abandon":
                 # two transfers on one session; every follow-up block request of the FIRST
                 # started one is lost (with all its retransmissions): it must be reported
@@ -834,6 +845,9 @@ def main(tier):
     nboth = 96 if tier == "quick" else 3000
     for i in range(0, nboth, 8):
         jobs.append(("both", list(range(i, min(nboth, i + 8))), exe))
+    slow = [(k, t, i) for k in ("get", "put") for t in (0, 1) for i in range(2 if tier == "quick" else 20)]
+    for i in range(0, len(slow), 2):
+        jobs.append(("slow", slow[i:i + 2], exe))
     nraw = 160 if tier == "quick" else 4000
     for i in range(0, nraw, 8):
         jobs.append(("rawput", list(range(i, min(nraw, i + 8))), exe))
